@@ -85,6 +85,10 @@ class Ctx:
                 # (names are looked for in the evidence proper - the detail and the bracketed path condition of the instance - not in the prose that states the clause)
                 ev_text = '%s %s' % (' '.join(re.findall(r'\[(.*)\]', str(instance))), text[len(str(instance)):]) if text.startswith(str(instance)) else text
                 named = sorted(n_ for n_ in allnew if len(n_) > 3 and re.search(r'(?<![A-Za-z0-9_])%s(?![A-Za-z0-9_])' % re.escape(n_), ev_text))
+                # ... in the prose a name counts where it is written as code: qualified (Class.method, obj.name) or called (name(...))
+                prose = str(instance)
+                named += sorted(n_ for n_ in allnew if len(n_) > 3 and n_ not in named and
+                                re.search(r'(?:(?<=\.)%s(?![A-Za-z0-9_])|(?<![A-Za-z0-9_])%s(?=[.(]))' % (re.escape(n_), re.escape(n_)), prose))
                 if named:
                     # the evidence names a class or function this tree introduces (left as a call, or as the type of an object): not read to the end
                     self._rec('UNDECIDED', rule, instance, where, 'the evidence goes through %s, which this tree introduces and the rule does not read: %s' % (', '.join(named[:3]), str(detail)[:160]))
